@@ -39,7 +39,7 @@ func main() {
 	humanize.Enabled = true
 	color.Enabled = false
 	logger.DeferLogs() // "Missing expression" etc. from the loader are not wanted on stderr
-	vh.Main(vh.Commands{"replay": c10Replay, "law": c10Law, "eval": c10Eval, "probechild": c10ProbeChild})
+	vh.Main(vh.Commands{"replay": c10Replay, "law": c10Law, "eval": c10Eval, "probechild": c10ProbeChild, "startup": c10Startup, "sitechild": c10SiteChild})
 }
 
 type M = vh.M
